@@ -207,6 +207,10 @@ def run(ctx):
     from .c03 import kwargs_namespace_rule
     kwargs_namespace_rule(ctx, program, "R12.12", only=("function.py::Function.service_call", "eval.py::AstEval.call_func"))
 
+    ctx.rule("R12.13", "a script's call of a response-only service asks for the response (and gets the function's result) in both subsystems: the legacy subsystem registers "
+             "the decorator's plain string 'only', which equals SupportsResponse.ONLY without being that object, so the test must be an equality", floor=2)
+    response_only_rule(ctx, program, "R12.13")
+
     ctx.rule("R12.3", "service handlers pass trigger_type='service', the call context and the call data, run the function in its own task and return its result", floor=2)
     for uid in ("eval.py::EvalFunc.trigger_init.pyscript_service_factory.pyscript_service_handler", "decorators/service.py::ServiceDecorator._service_callback"):
         f = program.func(uid)
@@ -525,3 +529,43 @@ def service_forms(ctx, program, rid):
                                 bad = f"name #{fail_at + 1} refused: names {regs} registered before it, {rems} removed again - the rest stay registered (the manager only stops decorators whose start() completed)"
             label = f"@service{tuple(names)}" + (f", name #{fail_at + 1} refused" if fail_at is not None else "")
             ctx.check(bad is None, rid, st_uid, label, msg=f"new subsystem {label}: {bad}", key=f"service form {label}", node=program.func(st_uid), rel="decorators/service.py")
+
+
+class _EnumStrPolicy(FlowPolicy):
+    """supports_response() hands back what was registered: the enum member (new subsystem) or an equal plain string (legacy)."""
+
+    def equal_hook(self, l, r):
+        if isinstance(l, Sym) and l == r and "SupportsResponse" in repr(l):
+            return True  # the same enumeration member
+        for a, b in ((l, r), (r, l)):
+            if isinstance(a, ObjV) and a.oid == "registered_plain_str" and "SupportsResponse.ONLY" in repr(b):
+                return True
+            if isinstance(a, ObjV) and a.oid == "registered_plain_str" and "SupportsResponse" in repr(b):
+                return False
+        return None
+
+
+def response_only_rule(ctx, program, rid):
+    uid = "function.py::Function.hass_services_async_call"
+    for label, reg in (("registered with the enum member (new subsystem)", None), ("registered with the plain string 'only' (legacy subsystem)", ObjV("registered_plain_str", "str"))):
+        def supports(i, n, a, k, c, o, reg=reg):
+            if reg is not None:
+                return [(c, reg)]
+            return [(c, i.ev(ast.parse("SupportsResponse.ONLY", mode="eval").body, c, o)[0][1])]
+
+        pol = _EnumStrPolicy(program, may_raise_all=False, cancel=False, events=["cls.hass.services.async_call"], summaries={"cls.hass.services.supports_response": supports})
+        out = run_flow(program, uid, pol, args={"cls": ClassV("Function"), "domain": Const("d"), "service": Const("s"), "kwargs": DictV([]), "hass_args": DictV([])})
+        ex = exits(out)
+        bad = None
+        for k, c, d in ex:
+            calls = [e for e in c.trace if e[0] == "call" and e[1] == "cls.hass.services.async_call"]
+            kw = dict(calls[0][3]) if calls else {}
+            # (**hass_args reaches the call as the final value of the dictionary)
+            ha = c.env.get("hass_args")
+            got = dict((kk.v, vv) for kk, vv in ha.items) if isinstance(ha, DictV) else kw
+            if k != "return" or len(calls) != 1:
+                bad = f"exits {d} with {len(calls)} call(s)"
+            elif got.get("return_response") != Const(True) or got.get("blocking") != Const(True):
+                bad = f"the call is made with options { {kk: repr(vv) for kk, vv in got.items()} }: the response is not requested, the script gets None instead of the function's result"
+        ctx.check(bool(ex) and bad is None, rid, uid, f"response-only service {label}", msg=f"script call of a response-only service {label}: {bad or 'no exit'}", key=f"response only {label[:30]}",
+                  node=program.func(uid), rel="function.py")
